@@ -3,6 +3,7 @@ import Mrpro.Model.OpsND
 import Mrpro.Model.Fourier
 import Mrpro.Model.AlgebraExec
 import Mrpro.Model.CG
+import Mrpro.Model.Functional
 open Lean M M.Proto
 
 def getTrajComp (j : Json) (k : String) : Except String TrajComp := do
@@ -86,6 +87,14 @@ def arrOps : VecOps Rat (Array CRat) where
 def traceJson (t : List (CGTrace (Array CRat))) : Json :=
   Json.arr (t.map (fun e => Json.mkObj [("x", cratsJson e.x.toList), ("r", cratsJson e.r.toList),
     ("k", Json.num (JsonNumber.fromNat e.k))])).toArray
+
+def getRatTensor (j : Json) (k : String) : Except String (Tensor Rat) := do
+  let o ← j.getObjVal? k
+  let shape ← getNats o "shape"
+  let d ← getRats o "data"
+  pure (Tensor.ofList shape d)
+def ratTensorJson (t : Tensor Rat) : Json :=
+  Json.mkObj [("shape", natsJson t.shape), ("data", ratsJson t.toList)]
 
 /-- one structural linear operator (forward or adjoint code path) on exact complex data -/
 def linop (j : Json) (x : Tensor CRat) : Except String (Except ErrKind (Tensor CRat)) := do
@@ -181,6 +190,25 @@ def handle (j : Json) : Except String Json := do
       match cgRun arrOps Hop b x0 maxIter tol2 with
       | .ok x reason tr => pure (Json.mkObj [("status", Json.str "ok"), ("x", cratsJson x.toList), ("reason", Json.str reason), ("trace", traceJson tr)])
       | .nan k tr => pure (Json.mkObj [("status", Json.str "nan"), ("k", Json.num (JsonNumber.fromNat k)), ("trace", traceJson tr)])
+  | "functional" =>
+      let clsS ← getStr j "cls"
+      let cls ← match clsS with
+        | "l1" => pure FunCls.l1 | "l1var" => pure FunCls.l1ViewAsReal | "l2" => pure FunCls.l2 | "zero" => pure FunCls.zero
+        | _ => throw "cls"
+      let dims ← match j.getObjVal? "dim" with
+        | .ok Json.null | .error _ => pure none
+        | .ok _ => do pure (some (← getInts j "dim"))
+      let cfg : FunCfg Rat := { cls := cls, weight := ← getRatTensor j "weight", target := ← getRatTensor j "target", dims := dims,
+                                divideByN := ← getBool j "divide_by_n", keepdim := ← getBool j "keepdim" }
+      let x ← getRatTensor j "x"
+      let call ← getStr j "call"
+      let nc := fun (n : Nat) => (n : Rat)
+      let r ← match call with
+        | "forward" => pure (funForward cfg nc x)
+        | "prox" => do let σ ← getRatTensor j "sigma"; pure (funProx cfg nc x σ)
+        | "conj" => do let σ ← getRatTensor j "sigma"; pure (funConj cfg nc (1/100000000) (1/1000000) x σ)
+        | _ => throw "call"
+      pure (match r with | .ok t => ratTensorJson t | .error e => errJson e)
   | "norm_dims" =>
       let ndim ← getNat j "ndim"; let dims ← getInts j "dims"
       pure (match dims.mapM (normIndex ndim) with
